@@ -275,8 +275,13 @@ SUBS = [
     Sub("addrgroup", judge_addrgroup, strategy=addrgroup_case_st, quick=1500, thorough=30000),
 ]
 
+# coverage-guided twins (fuzz/fuzz_hyp.py): atheris mutates the bytes Hypothesis decodes into cases of the same strategy
+SUBS += [__import__("lib.harness", fromlist=["x"]).cov_sub('C12', s_) for s_ in list(SUBS) if s_.name in ('acl',)]
+
 MANIFEST = {
     "technique": "property-based testing with a line-accounting oracle: generated bodies mixing valid, ignorable, invalid and over-limit lines; items, WARNING/log records captured from the root logger and raised errors must together account for every non-empty line in order",
     "text": "exploration: every non-empty body line of thousands (quick) / 110 000 (thorough) generated Acl / AceGroup / AddrGroup texts was accounted for (item in position with the same meaning, documented ignorable line, log record naming the line, or construction error); no valid line was dropped and no item invented",
     "note": "trusted: lib/refsem.py for the meaning of valid lines and the repr()-based matching of log messages; lines labelled invalid by the generator but accepted by the library are counted as items",
 }
+MANIFEST["engine"] += " + atheris (coverage-guided twins of the Hypothesis sub-checks, fuzz/fuzz_hyp.py: 2 jobs x 8 s quick, 8 jobs x 200 s thorough)"
+MANIFEST["technique"] += "; plus coverage-guided fuzzing of the same strategies (atheris/libFuzzer mutates the byte stream Hypothesis decodes into cases, the same oracle runs inside the target, findings are re-judged outside it)"
